@@ -11,8 +11,10 @@
 3. TLC, Macro.tla families P / PT: every pair in every adjacency context
    (adjacent in source; a + object-like macro starting with b; b substituted
    next to a; a E b with E empty (two spacings); end of one expansion / start of
-   the next; expansion followed by source token), triples through ID() and
-   through empty macros; invariant PrintedFaithful on the flags produced by the
+   the next; expansion followed by source token; a and b consecutive tokens of one
+   macro argument with a newline between, directly and handed on through another
+   macro), triples through ID(), through empty macros and inside one argument over
+   three lines; invariant PrintedFaithful on the flags produced by the
    expand_macro/subst transcription.  Control: PFix = FALSE must be rejected.
 4. Replay of those inputs through `chibicc -E`: (i) tokens = expected,
    (ii) E(E(x)) = E(x) token for token.  Over test/*.c and the compiler's own
